@@ -164,7 +164,7 @@ func (s Scenario) run() (Outcome, []storeCall) {
 }
 
 func (s Scenario) coq(o Outcome, log []storeCall) (string, bool) {
-	pr := parser.Parse(s.Text)
+	pr := parseSafe(s.Text)
 	fail := "None"
 	if s.FailAt >= 0 {
 		fail = fmt.Sprintf("(Some %d%%nat)", s.FailAt)
@@ -254,7 +254,7 @@ func (s Scenario) prefixPostingCounts(whole Outcome) []int {
 	if whole.Class != "ok" {
 		return nil
 	}
-	pr := parser.Parse(s.Text)
+	pr := parseSafe(s.Text)
 	if len(pr.Errors) != 0 {
 		return nil
 	}
@@ -372,6 +372,9 @@ func interpCases(c *Ctx, n int, tweak func(cfg *GenCfg, i int), post func(s *Sce
 		case "zeroTwins":
 			prog = g.zeroTwinsProgram()
 			c.count("directed:zeroTwins")
+		case "keyCollision":
+			prog = g.keyCollisionProgram()
+			c.count("directed:keyCollision")
 		case "twoAssets":
 			prog = g.twoAssetsProgram()
 			c.count("directed:twoAssets")
@@ -419,7 +422,23 @@ func c06Program(g *Gen, r *Rand, n *big.Int, mirrored bool) *GProgram {
 	g.asset = assetPool[r.Weighted(80, 10, 10)]
 	k := 1 + r.Weighted(10, 40, 30, 20)
 	allots := g.allots(k)
-	if r.Chance(1, 8) {
+	if r.Chance(1, 10) {
+		// two portion VARIABLES given as percentages with 19 to 26 decimals that add up to exactly 100%
+		k := 19 + r.Intn(8)
+		third := strings.Repeat("3", k)
+		rest := strings.Repeat("6", k-1) + "7"
+		g.prog.Vars = append(g.prog.Vars, &GVarDecl{Type: "portion", Name: "pa"}, &GVarDecl{Type: "portion", Name: "pb"})
+		g.rawVars["pa"] = "33." + third + "%"
+		g.rawVars["pb"] = "66." + rest + "%"
+		if r.Chance(1, 3) {
+			g.rawVars["pa"] = "0." + strings.Repeat("0", k-1) + "1%"
+			g.rawVars["pb"] = "99." + strings.Repeat("9", k) + "%"
+		}
+		allots = []*GAllot{{Kind: AlVar, E: &GExpr{Kind: XVar, S: "pa"}}, {Kind: AlVar, E: &GExpr{Kind: XVar, S: "pb"}}}
+		if r.Chance(1, 2) {
+			n = new(big.Int).Exp(bi(10), bi(int64(20+r.Intn(8))), nil)
+		}
+	} else if r.Chance(1, 8) {
 		// ONE portion variable written in two clauses (the shares of the second must not depend on the first)
 		den := int64(2 + r.Intn(9))
 		num := int64(1 + r.Intn(int(den)/2))
@@ -508,12 +527,16 @@ func init() {
 			switch i % 64 {
 			case 18:
 				cfg.SelfLead, cfg.Directed = false, "originOtherAsset"
-			case 34:
+			case 34, 2:
 				cfg.SelfLead, cfg.Directed = false, "twoAssets"
 			case 50:
 				cfg.SelfLead, cfg.Directed = false, "zeroTwins"
 			}
-		}, nil)
+		}, func(s *Scenario, r *Rand, i int) {
+			if i%64 == 2 {
+				s.Kind = skSparse // half of the twoAssets cases: the store says nothing (or nil) about what it does not hold
+			}
+		})
 	}
 	registry["C02"] = func(c *Ctx) {
 		c.group("scripts", "c02case", "judge_C02")
@@ -614,6 +637,8 @@ func init() {
 				cfg.Directed = "cappedWorldThen"
 			case 13:
 				cfg.Directed = "worldLookalike"
+			case 1:
+				cfg.Directed = "keyCollision"
 			}
 		}, nil)
 	}
